@@ -21,14 +21,16 @@
 (***************************************************************************)
 EXTENDS Naturals, Sequences, FiniteSets
 
-Types == {"Page", "Pages", "Other", "NoType", "NonDict"}
+\* "StrmPage" / "StrmPages": a stream object whose dictionary says /Type /Page (/Pages): not a dictionary
+Types == {"Page", "Pages", "Other", "NoType", "NonDict", "StrmPage", "StrmPages"}
+NotDict == {"NonDict", "StrmPage", "StrmPages"}
 
 NodesOf(g) == DOMAIN g.typ
 
 IsNode(g, n) == n \in NodesOf(g)
 
 \* Kids as the iterator sees them: only a dictionary node can have a Kids array.
-KidsOf(g, n) == IF IsNode(g, n) /\ g.typ[n] # "NonDict" THEN g.kids[n] ELSE <<>>
+KidsOf(g, n) == IF IsNode(g, n) /\ g.typ[n] \notin NotDict THEN g.kids[n] ELSE <<>>
 
 -----------------------------------------------------------------------------
 (* Declarative layer *)
@@ -101,7 +103,7 @@ Acceptable(g, pages, depthLimit) ==
 NoKids == <<>>
 
 IterKids(g, n) ==           \* PageTreeIter::kids: dictionary -> Kids (deref) -> array
-    IF IsNode(g, n) /\ g.typ[n] # "NonDict" THEN g.kids[n] ELSE NoKids
+    IF IsNode(g, n) /\ g.typ[n] \notin NotDict THEN g.kids[n] ELSE NoKids
 
 Budget(g) == Cardinality(NodesOf(g)) + g.extra      \* iter_limit = doc.objects.len()
 
